@@ -25,8 +25,10 @@ def tokenize(src):
     toks = []
     i = 0; n = len(src); pre_start = 0; line = 1
     def emit(kind, s, e):
-        nonlocal pre_start
-        toks.append(Tok(kind, src[s:e], src[pre_start:s], s, e, False, src.count("\n", 0, s) + 1))
+        nonlocal pre_start, line
+        line += src.count("\n", pre_start, s)
+        toks.append(Tok(kind, src[s:e], src[pre_start:s], s, e, False, line))
+        line += src.count("\n", s, e)
         pre_start = e
     while i < n:
         c = src[i]
